@@ -345,6 +345,7 @@ def main_check(mod, tier, seed, replay=None):
     cov['runs_per_hour'] = int(runs / max(wall, 1e-6) * 3600)
     cov['subseeds_per_hour'] = int(len(results) / max(wall, 1e-6) * 3600)
     cov['components'] = getattr(mod, 'COMPONENTS', {})
+    cov['rule'] = mod.RULE
     write_evidence(mod, tier, seed, wall, cov, sum(seen_classes.values()))
     print(f'[{mod.ID}] tier={tier} seed={seed} subseeds={len(results)} runs={runs} wall={wall:.1f}s '
           f'violation_classes={len(seen_classes)} attributed={attributed} harness_problems={len(harness_problems)}')
